@@ -789,6 +789,10 @@ def c15c(F, R):
                     fresh.add(s["pat"]["name"])
                 if any(x.get("k") == "Path" and x.get("res") in derived for x in walk(s["init"], pats=False)):
                     derived.add(s["pat"]["name"])
+            if s.get("k") == "Let" and s.get("init") and s["pat"].get("k") == "PTuple":
+                # `let (id, text) = <the document looked up by the imported path>`: both depend on the path
+                if any(x.get("k") == "Path" and x.get("res") in derived for x in walk(s["init"], pats=False)):
+                    derived |= {b_["name"] for b_ in walk(s["pat"]) if b_.get("k") == "PBinding"}
         guard = None
         for n in walk(f["hir"]["value"], pats=False):
             if n.get("k") == "If" and "FileAlreadyRead" in ctor_names(n["then"], FRERR):
@@ -945,6 +949,22 @@ def c15e(F, R):
             root_i, root_t = idk.split(".")[0], txk.split(".")[0]
             if good is None and root_i == root_t and idk != txk and "." in idk and "." in txk:
                 good = f"both projections of the one stored entry `{root_i}`"
+            if good is None:
+                # `let (id, text) = self.<store>.iter()..map(|(k, v)| (*k, v.text.clone()))`: key and text of one entry of the store
+                for st_ in walk(body, pats=False):
+                    if st_.get("k") == "Let" and st_["pat"].get("k") == "PTuple" and st_.get("init") is not None and [b_.get("name") for b_ in st_["pat"]["pats"]] == [idk, txk]:
+                        for mp in walk(st_["init"], pats=False):
+                            if mp.get("k") == "MethodCall" and mp["name"] == "map" and mp["args"] and peel(mp["args"][0]).get("k") == "Closure" and \
+                                    any(y.get("k") == "Field" and ekey(y).startswith("self.") for y in walk(mp["recv"], pats=False)):
+                                cl_ = peel(mp["args"][0])
+                                ps_ = [b_["name"] for p_ in cl_.get("params", []) for b_ in walk(p_) if b_.get("k") == "PBinding"]
+                                tb = peel(cl_["body"])
+                                while tb.get("k") == "Block" and not tb.get("stmts") and tb.get("expr") is not None:
+                                    tb = peel(tb["expr"])
+                                if len(ps_) == 2 and tb.get("k") == "Tup" and len(tb["elems"]) == 2 and \
+                                        any(y.get("k") == "Path" and y.get("res") == ps_[0] for y in walk(tb["elems"][0], pats=False)) and not any(y.get("k") == "Path" and y.get("res") == ps_[1] for y in walk(tb["elems"][0], pats=False)) and \
+                                        any(y.get("k") == "Path" and y.get("res") == ps_[1] for y in walk(tb["elems"][1], pats=False)):
+                                    good = f"key and text of one entry of the store (`|({ps_[0]}, {ps_[1]})| ({ekey(tb['elems'][0])}, {ekey(tb['elems'][1])})`)"
             if good:
                 R.ok(f"{name}|id-text", detail=f"{name}: Ok(({idk}, {txk})) {good}", where=loc(n))
             else:
